@@ -6,11 +6,20 @@ PID = "C06"
 PROP_V = ["Props/Properties_C06.v", "Props/Properties_C01w.v"]
 GEN_MODULES = ["Consts", "Sites"]
 REPLAY_HINT = "VRT_SEED=<seed> [VRT_MODE=<m>] _work/h/muwait_mix"
-PARTIAL = []
+PARTIAL = ["C06_rings / C06_scan_sound are proved over the pure functions the model's steps call (enqueue with merge at both ends, removal with "
+           "ring repair, one scan round), for queues of any length; RingInv is not yet lifted to an invariant of all reachable worlds",
+           "C06_allfalse_sound and C06_no_stuck are kept as Definitions (_full) with C06_allfalse_partial proved (site by site, which word writes can "
+           "set, clear or keep MU_ALL_FALSE); 'every waiter whose condition became true returns' is decided by the stuck detector"]
+TRUSTED_BASE = ["Model/MuWaitModel.v control skeleton (mu.c + mu_wait.c incl. the multi-round scan with condition evaluation, ring repair, the "
+                "timeout re-acquisition path): hand-written, validated by lock-step replay with queue AND same_condition-ring snapshots (replay/muwait_replay.ml)"]
 
 
 def run(tier, seed):
+    import mu_common
     res = {"violations": [], "broken": [], "coverage": {}}
+    tie = mu_common.tie(res, "muwait_replay", "MuWaitModel", [("muwait_mix", {"VRT_MODE": 0, "VRT_CV": 0}, 250, 2500),
+                                                              ("muwait_mix", {"VRT_MODE": 1, "VRT_CV": 0}, 150, 1500),
+                                                              ("mu_mix", {}, 150, 1500)], tier, seed)
     specs = [("muwait_mix", {"VRT_MODE": 0}, 4000, 80000), ("muwait_mix", {"VRT_MODE": 1}, 1000, 20000), ("muwait_mix", {"VRT_MODE": 2}, 2500, 50000),
              ("muwait_mix", {"VRT_MODE": 0}, 800, 15000, "binary"), ("muwait_mix", {"VRT_MODE": 3}, 1500, 30000)]
     cov = scen_common.run_scenarios(res, specs, tier, seed, {"C06", "C05"} | scen_common.LIVENESS | scen_common.CRASHES)
@@ -19,5 +28,6 @@ def run(tier, seed):
                    "that change nothing, plain lockers queued in front of conditional waiters (MODE 2), cv waiters, timeouts and "
                    "cancellation; oracles: every untimed waiter returns once its condition is true (stuck detector), no condition is "
                    "evaluated while another thread is inside a write section; non-trivial = runs with semaphore sleeps")
+    cov.update(tie)
     res["coverage"] = cov
     return res
